@@ -120,18 +120,29 @@ def execute(run, seed, scratch):
     how = run["spelling"]
     rules = []
     response_headers = {}
+    def opt(long, short, value):
+        # the ways a command line can spell an option and its value
+        form = rng.choice(["separate", "separate", "equals", "short", "attached"])
+        if form == "separate":
+            return [long, value]
+        if form == "equals":
+            return [f"{long}={value}"]
+        if form == "short":
+            return [short, value]
+        return [f"{short}{value}"]
+
     if "authorization_header" in routes:
         secrets["authorization_header"] = (canary(rng, "auth"), None)
-        args += ["--header", f"{spell('Authorization', how)}: Bearer {secrets['authorization_header'][0]}"]
+        args += opt("--header", "-H", f"{spell('Authorization', how)}: Bearer {secrets['authorization_header'][0]}")
     if "api_key_header" in routes:
         secrets["api_key_header"] = (canary(rng, "apik"), None)
-        args += ["--header", f"{spell('X-API-Key', how)}: {secrets['api_key_header'][0]}"]
+        args += opt("--header", "-H", f"{spell('X-API-Key', how)}: {secrets['api_key_header'][0]}")
     if "marker_header" in routes:
         secrets["marker_header"] = (canary(rng, "mark"), None)
-        args += ["--header", f"{spell('X-My-Session-Token', how)}: {secrets['marker_header'][0]}"]
+        args += opt("--header", "-H", f"{spell('X-My-Session-Token', how)}: {secrets['marker_header'][0]}")
     if "basic_auth" in routes:
         secrets["basic_auth"] = (canary(rng, "basc"), "alice")
-        args += ["--auth", f"alice:{secrets['basic_auth'][0]}"]
+        args += opt("--auth", "-a", f"alice:{secrets['basic_auth'][0]}")
     if "set_query" in routes:
         secrets["set_query"] = (canary(rng, "qury"), None)
         args += ["--set-query", f"api_key={secrets['set_query'][0]}"]
